@@ -24,7 +24,7 @@ use std::panic::{AssertUnwindSafe, catch_unwind};
 use bump_scope::alloc::Global;
 use bump_scope::settings::BumpSettings;
 use bump_scope::traits::{BumpAllocatorTypedScope, MutBumpAllocatorTypedScope};
-use bump_scope::{Bump, BumpBox, BumpString, BumpVec, FixedBumpString, FixedBumpVec, MutBumpString, MutBumpVec};
+use bump_scope::{Bump, BumpBox, BumpScope, BumpString, BumpVec, FixedBumpString, FixedBumpVec, MutBumpString, MutBumpVec};
 
 use verif_harness::{Rng, seed};
 
@@ -48,9 +48,16 @@ enum Op {
     ReplaceRange(Rg, String),
     ExtendFromWithin(Rg),
     SplitOff(Rg),
-    IntoCstr,
+    Convert(Conv),
     Reserve(usize),
     ReserveExact(usize),
+    ExtendZeroed(usize),
+    WriteStr(String),
+    WriteChar(char),
+    ExtendChars(Vec<char>, bool),
+    ExtendStrs(Vec<String>, bool),
+    ShrinkTo(usize),
+    ShrinkToFit,
 }
 
 impl Op {
@@ -69,9 +76,16 @@ impl Op {
             Op::ReplaceRange(..) => "replace_range",
             Op::ExtendFromWithin(..) => "extend_from_within",
             Op::SplitOff(..) => "split_off",
-            Op::IntoCstr => "into_cstr",
+            Op::Convert(c) => c.name(),
             Op::Reserve(..) => "reserve",
             Op::ReserveExact(..) => "reserve_exact",
+            Op::ExtendZeroed(..) => "extend_zeroed",
+            Op::WriteStr(..) => "write_str",
+            Op::WriteChar(..) => "write_char",
+            Op::ExtendChars(..) => "extend_chars",
+            Op::ExtendStrs(..) => "extend_strs",
+            Op::ShrinkTo(..) => "shrink_to",
+            Op::ShrinkToFit => "shrink_to_fit",
         }
     }
     fn text(&self) -> String {
@@ -89,10 +103,26 @@ impl Op {
             Op::ReplaceRange(r, s) => format!("replace_range {} {} {}", bd(r.0), bd(r.1), hex(s.as_bytes())),
             Op::ExtendFromWithin(r) => format!("extend_from_within {} {}", bd(r.0), bd(r.1)),
             Op::SplitOff(r) => format!("split_off {} {}", bd(r.0), bd(r.1)),
-            Op::IntoCstr => "into_cstr".into(),
+            Op::Convert(c) => c.name().into(),
             Op::Reserve(n) => format!("reserve {n}"),
             Op::ReserveExact(n) => format!("reserve_exact {n}"),
+            Op::ExtendZeroed(n) => format!("extend_zeroed {n}"),
+            Op::WriteStr(s) => format!("write_str {}", hex(s.as_bytes())),
+            Op::WriteChar(c) => format!("write_char {}", *c as u32),
+            Op::ExtendChars(cs, by_ref) => format!("extend_chars {} {}", *by_ref as u8, cps(cs)),
+            Op::ExtendStrs(ss, add) => format!("extend_strs {} {}", *add as u8, ss.iter().map(|x| hex(x.as_bytes())).collect::<Vec<_>>().join(" ")),
+            Op::ShrinkTo(n) => format!("shrink_to {n}"),
+            Op::ShrinkToFit => "shrink_to_fit".into(),
         }
+    }
+    /// the operation exists as a `try_` / panicking pair
+    fn has_twin(&self) -> bool {
+        matches!(self, Op::Push(..) | Op::PushStr(..) | Op::Insert(..) | Op::InsertStr(..) | Op::ReplaceRange(..) | Op::ExtendFromWithin(..)
+            | Op::ExtendZeroed(..) | Op::Reserve(..) | Op::ReserveExact(..))
+    }
+    /// may need memory (a full fixed string reports an allocation error and must stay unchanged)
+    fn grows(&self) -> bool {
+        self.has_twin() || matches!(self, Op::WriteStr(..) | Op::WriteChar(..) | Op::ExtendChars(..) | Op::ExtendStrs(..))
     }
 }
 
@@ -153,6 +183,7 @@ struct Ctx {
     ops: BTreeMap<&'static str, [u64; 3]>,
     branches: BTreeMap<&'static str, u64>,
     kinds: [u64; 4],
+    cfgs: [u64; 4],
     oracle_failures: u64,
     cases: u64,
     news: u64,
@@ -163,12 +194,16 @@ impl Ctx {
     fn oracle(&mut self, msg: String) {
         self.oracle_failures += 1;
         let _ = writeln!(self.out, "oracle C09 {msg}");
+        // print at once: the process may not survive what the implementation does next
+        self.flush();
     }
     fn branch(&mut self, name: &'static str) {
         *self.branches.entry(name).or_insert(0) += 1;
     }
     fn flush(&mut self) {
+        use std::io::Write as _;
         print!("{}", self.out);
+        let _ = std::io::stdout().flush();
         self.out.clear();
     }
 }
@@ -262,11 +297,17 @@ fn gen_oracle(ctx: &mut Ctx, r: &str) -> Vec<u8> {
 }
 
 fn gen_op(ctx: &mut Ctx, kind: Kind, r: &str, last: bool) -> Op {
-    if last && matches!(kind, Kind::Bump | Kind::Mut) && ctx.rng.chance(1, 2) {
-        return Op::IntoCstr;
+    if last && ctx.rng.chance(2, 3) {
+        let convs: &[Conv] = match kind {
+            Kind::Box => &[Conv::IntoStr],
+            Kind::Fixed => &[Conv::IntoStr, Conv::IntoBoxedStr, Conv::IntoBytes, Conv::IntoString],
+            Kind::Bump => &[Conv::IntoCstr, Conv::IntoStr, Conv::IntoBoxedStr, Conv::IntoFixedString, Conv::IntoBytes],
+            Kind::Mut => &[Conv::IntoCstr, Conv::IntoStr, Conv::IntoBoxedStr, Conv::IntoBytes],
+        };
+        return Op::Convert(*ctx.rng.pick(convs));
     }
     loop {
-        let k = ctx.rng.below(100);
+        let k = ctx.rng.below(116);
         let op = match k {
             0..=11 => Op::Push(gen_char(&mut ctx.rng)),
             12..=19 => Op::PushStr(gen_text(&mut ctx.rng, 4)),
@@ -287,14 +328,31 @@ fn gen_op(ctx: &mut Ctx, kind: Kind, r: &str, last: bool) -> Op {
             92..=96 => Op::SplitOff(gen_range(ctx, r)),
             97 => Op::Reserve(if ctx.rng.chance(1, 6) { 300 + ctx.rng.below(3000) as usize } else { ctx.rng.below(40) as usize }),
             98 => Op::ReserveExact(if ctx.rng.chance(1, 6) { 300 + ctx.rng.below(3000) as usize } else { ctx.rng.below(40) as usize }),
-            _ => Op::IntoCstr,
+            99..=101 => Op::ExtendZeroed(ctx.rng.below(6) as usize),
+            102..=104 => Op::WriteStr(gen_text(&mut ctx.rng, 3)),
+            105..=107 => Op::WriteChar(gen_char(&mut ctx.rng)),
+            108..=109 => {
+                let n = ctx.rng.below(4);
+                Op::ExtendChars((0..n).map(|_| gen_char(&mut ctx.rng)).collect(), ctx.rng.chance(1, 2))
+            }
+            110..=111 => {
+                let n = ctx.rng.below(4);
+                Op::ExtendStrs((0..n).map(|_| gen_text(&mut ctx.rng, 2)).collect(), ctx.rng.chance(1, 2))
+            }
+            112..=114 => Op::ShrinkTo(match ctx.rng.below(4) {
+                0 => ctx.rng.below(r.len() as u64 + 1) as usize,
+                1 => r.len() + ctx.rng.below(12) as usize,
+                2 => r.len(),
+                _ => ctx.rng.below(80) as usize,
+            }),
+            _ => Op::ShrinkToFit,
         };
         let supported = match (&op, kind) {
-            (Op::IntoCstr, Kind::Bump | Kind::Mut) => last,
-            (Op::IntoCstr, _) => false,
+            (Op::Convert(..), _) => false,
             (Op::SplitOff(..), Kind::Mut) => false,
             (Op::ReserveExact(..), Kind::Fixed) => false,
-            (Op::Push(..) | Op::PushStr(..) | Op::Insert(..) | Op::InsertStr(..) | Op::ReplaceRange(..) | Op::ExtendFromWithin(..) | Op::Reserve(..) | Op::ReserveExact(..), Kind::Box) => false,
+            (Op::ShrinkTo(..) | Op::ShrinkToFit, k) => k == Kind::Bump,
+            (o, Kind::Box) => !o.grows(),
             _ => true,
         };
         if supported {
@@ -321,20 +379,20 @@ fn predicate<'a>(oracle: &'a [u8], seen: &'a mut Vec<char>) -> impl FnMut(char) 
 }
 
 /// runs `op` on the real string; `seen` = characters handed to the retain predicate
-fn run_impl(s: &mut Option<Box<dyn StrOps + '_>>, kind: Kind, op: &Op, seen: &mut Vec<char>, cstr: &mut Option<Vec<u8>>) -> Obs {
+fn run_impl(s: &mut Option<Box<dyn StrOps + '_>>, kind: Kind, op: &Op, t: bool, keep_part: bool, probe: (u8, usize), seen: &mut Vec<char>, fin: &mut Option<Fin>) -> Obs {
     let res = catch_unwind(AssertUnwindSafe(|| -> Result<String, ()> {
-        if let Op::IntoCstr = op {
-            let b = s.take().unwrap().into_cstr();
-            let h = hex(&b);
-            *cstr = Some(b);
+        if let Op::Convert(c) = op {
+            let f = s.take().unwrap().finish(*c, probe.0, probe.1);
+            let h = hex(&f.bytes);
+            *fin = Some(f);
             return Ok(h);
         }
         let s = s.as_mut().unwrap();
         match op {
-            Op::Push(c) => s.push(*c).map(|_| String::new()),
-            Op::PushStr(t) => s.push_str(t).map(|_| String::new()),
-            Op::Insert(i, c) => s.insert(*i, *c).map(|_| String::new()),
-            Op::InsertStr(i, t) => s.insert_str(*i, t).map(|_| String::new()),
+            Op::Push(c) => s.push(*c, t).map(|_| String::new()),
+            Op::PushStr(x) => s.push_str(x, t).map(|_| String::new()),
+            Op::Insert(i, c) => s.insert(*i, *c, t).map(|_| String::new()),
+            Op::InsertStr(i, x) => s.insert_str(*i, x, t).map(|_| String::new()),
             Op::Remove(i) => Ok((s.remove(*i) as u32).to_string()),
             Op::Pop => Ok(match s.pop() {
                 None => "none".into(),
@@ -354,21 +412,46 @@ fn run_impl(s: &mut Option<Box<dyn StrOps + '_>>, kind: Kind, op: &Op, seen: &mu
                 Ok(String::new())
             }
             Op::Drain(r, t) => Ok(cps(&s.drain(*r, *t))),
-            Op::ReplaceRange(r, t) => s.replace_range(*r, t).map(|_| String::new()),
-            Op::ExtendFromWithin(r) => s.extend_from_within(*r).map(|_| String::new()),
+            Op::ReplaceRange(r, x) => s.replace_range(*r, x, t).map(|_| String::new()),
+            Op::ExtendFromWithin(r) => s.extend_from_within(*r, t).map(|_| String::new()),
             Op::SplitOff(r) => {
-                let (b, cap) = s.split_off(*r);
+                let (b, cap) = s.split_off(*r, keep_part);
                 Ok(format!("{}:{}", hex(&b), if kind == Kind::Box { "-".into() } else { cap.to_string() }))
             }
-            Op::Reserve(n) => s.reserve(*n).map(|_| String::new()),
-            Op::ReserveExact(n) => s.reserve_exact(*n).map(|_| String::new()),
-            Op::IntoCstr => unreachable!(),
+            Op::Reserve(n) => s.reserve(*n, t).map(|_| String::new()),
+            Op::ReserveExact(n) => s.reserve_exact(*n, t).map(|_| String::new()),
+            Op::ExtendZeroed(n) => s.extend_zeroed(*n, t).map(|_| String::new()),
+            Op::WriteStr(x) => s.write_str(x).map(|_| String::new()),
+            Op::WriteChar(c) => s.write_char(*c).map(|_| String::new()),
+            Op::ExtendChars(cs, by_ref) => {
+                s.extend_chars(cs, *by_ref);
+                Ok(String::new())
+            }
+            Op::ExtendStrs(ss, add) => {
+                let v: Vec<&str> = ss.iter().map(|x| x.as_str()).collect();
+                s.extend_strs(&v, *add);
+                Ok(String::new())
+            }
+            Op::ShrinkTo(n) => {
+                s.shrink_to(*n);
+                Ok(String::new())
+            }
+            Op::ShrinkToFit => {
+                s.shrink_to_fit();
+                Ok(String::new())
+            }
+            Op::Convert(_) => unreachable!(),
         }
     }));
     match res {
         Ok(Ok(v)) => Obs::Ok(v),
         Ok(Err(())) => Obs::Err,
-        Err(_) => Obs::Panic,
+        Err(payload) => {
+            // the panicking twin of a FixedBumpString reports the allocation error by panicking
+            // ("fixed size vector is full" / "... does not have space for N more elements")
+            let msg = payload.downcast_ref::<String>().map(|x| x.as_str()).or_else(|| payload.downcast_ref::<&str>().copied()).unwrap_or("");
+            if msg.starts_with("fixed size vector") { Obs::Err } else { Obs::Panic }
+        }
     }
 }
 
@@ -427,12 +510,43 @@ fn run_ref(r: &mut String, op: &Op, seen: &mut Vec<char>) -> Obs {
                 let o: String = r.drain(*rg).collect();
                 hex(o.as_bytes())
             }
-            Op::Reserve(_) | Op::ReserveExact(_) => String::new(),
-            Op::IntoCstr => {
+            Op::Reserve(_) | Op::ReserveExact(_) | Op::ShrinkTo(_) | Op::ShrinkToFit => {
+                if let Op::ShrinkTo(n) = op { r.shrink_to(*n) }
+                if let Op::ShrinkToFit = op { r.shrink_to_fit() }
+                String::new()
+            }
+            Op::ExtendZeroed(n) => {
+                r.extend(std::iter::repeat('\0').take(*n));
+                String::new()
+            }
+            Op::WriteStr(x) => {
+                let _ = std::fmt::Write::write_str(r, x);
+                String::new()
+            }
+            Op::WriteChar(c) => {
+                let _ = std::fmt::Write::write_char(r, *c);
+                String::new()
+            }
+            Op::ExtendChars(cs, by_ref) => {
+                if *by_ref { r.extend(cs.iter()) } else { r.extend(cs.iter().copied()) }
+                String::new()
+            }
+            Op::ExtendStrs(ss, add) => {
+                if *add {
+                    for x in ss {
+                        *r += x;
+                    }
+                } else {
+                    r.extend(ss.iter().map(|x| x.as_str()));
+                }
+                String::new()
+            }
+            Op::Convert(Conv::IntoCstr) => {
                 let b = ref_cstr(r.as_bytes());
                 *r = String::from_utf8(b.clone()).unwrap();
                 hex(&b)
             }
+            Op::Convert(_) => hex(r.as_bytes()),
         }
     }));
     match res {
@@ -456,41 +570,87 @@ fn range_desc(r: &Rg) -> String {
 /// one operation on the real string `s` and on the std reference `r`; prints the `op` line,
 /// evaluates the oracles; returns false when the sequence cannot continue
 fn step(ctx: &mut Ctx, s: &mut Option<Box<dyn StrOps + '_>>, r: &mut String, kind: Kind, op: &Op) -> bool {
-    let optext = op.text();
+    // which twin of the API: a fixed string mostly the `try_` one, a growable one mostly the panicking one
+    let t = op.has_twin() && if kind == Kind::Fixed { ctx.rng.chance(2, 3) } else { ctx.rng.chance(1, 3) };
+    let keep_part = ctx.rng.chance(1, 2);
+    let probe = (0xA0 + ctx.rng.below(16) as u8, 1 + ctx.rng.below(24) as usize);
+    let optext = if t { format!("try_{}", op.text()) } else { op.text() };
+    let failures_before = ctx.oracle_failures;
     let before = r.clone();
     let cap_before = s.as_ref().unwrap().cap();
     let mut seen_i = Vec::new();
     let mut seen_r = Vec::new();
-    let mut cstr = None;
-    let obs = run_impl(s, kind, op, &mut seen_i, &mut cstr);
+    let mut fin: Option<Fin> = None;
+    let obs = run_impl(s, kind, op, t, keep_part, probe, &mut seen_i, &mut fin);
     let mut want = run_ref(r, op, &mut seen_r);
-    // a fixed string reports an allocation error instead when the result does not fit
-    if kind == Kind::Fixed && matches!(want, Obs::Ok(_)) && r.len() > cap_before && r.len() > before.len() {
-        want = Obs::Err;
-        *r = before.clone();
-    }
-    if let (Kind::Fixed, Op::Reserve(n)) = (kind, op) {
-        if *n > cap_before - before.len() {
-            want = Obs::Err;
+    // a fixed string reports an allocation error instead when the result does not fit — and must be UNCHANGED then
+    // (`Extend`: a sequence of pushes; what fitted before the failing one stays)
+    if kind == Kind::Fixed && matches!(want, Obs::Ok(_)) {
+        let spare = cap_before - before.len();
+        match op {
+            Op::ExtendChars(cs, _) => {
+                let mut exp = before.clone();
+                let mut failed = cs.len() > spare; // `reserve(size_hint().0)` first
+                if !failed {
+                    for c in cs {
+                        if exp.len() + c.len_utf8() > cap_before {
+                            failed = true;
+                            break;
+                        }
+                        exp.push(*c);
+                    }
+                }
+                if failed {
+                    want = Obs::Err;
+                    *r = exp;
+                }
+            }
+            Op::ExtendStrs(ss, _) => {
+                let mut exp = before.clone();
+                let mut failed = false;
+                for x in ss {
+                    if exp.len() + x.len() > cap_before {
+                        failed = true;
+                        break;
+                    }
+                    exp.push_str(x);
+                }
+                if failed {
+                    want = Obs::Err;
+                    *r = exp;
+                }
+            }
+            Op::Reserve(n) => {
+                if *n > spare {
+                    want = Obs::Err;
+                }
+            }
+            _ => {
+                if r.len() > cap_before && r.len() > before.len() {
+                    want = Obs::Err;
+                    *r = before.clone();
+                }
+            }
         }
     }
     ctx.cases += 1;
     ctx.ops.entry(op.name()).or_insert([0; 3])[obs.class()] += 1;
     ctx.kinds[kind.idx()] += 1;
     // ---- observation
-    let (bytes, cap) = match (&cstr, s.as_ref()) {
-        (Some(b), _) => (b.clone(), "-".to_string()),
+    let (bytes, cap) = match (&fin, s.as_ref()) {
+        (Some(f), _) => (f.bytes.clone(), "-".to_string()),
         (None, Some(s)) => (s.bytes(), if kind == Kind::Box { "-".into() } else { s.cap().to_string() }),
         (None, None) => {
-            // `into_cstr` panicked after consuming the string: nothing left to observe
+            // the conversion panicked after consuming the string: nothing left to observe
             let _ = writeln!(ctx.out, "op {optext} => panic | - | 0 | -");
             ctx.oracle(format!("PANIC-MISMATCH kind={} `{optext}` on {:?} panicked", kind.name(), before));
             return false;
         }
     };
     // MutBumpString: the capacity the arena granted is an input of the model
-    let grant = match (kind, s.as_ref()) {
-        (Kind::Mut, Some(s)) => format!(" g{}", s.cap()),
+    // (so is the capacity after `shrink_to(_fit)`: whether the arena can shrink depends on what else it holds)
+    let grant = match (kind, s.as_ref(), op) {
+        (Kind::Mut, Some(s), _) | (_, Some(s), Op::ShrinkTo(_) | Op::ShrinkToFit) => format!(" g{}", s.cap()),
         _ => String::new(),
     };
     let _ = writeln!(ctx.out, "op {optext}{grant} => {} | {} | {} | {cap}", obs.text(), hex(&bytes), bytes.len());
@@ -500,7 +660,17 @@ fn step(ctx: &mut Ctx, s: &mut Option<Box<dyn StrOps + '_>>, r: &mut String, kin
         if bytes.len() > cap_after {
             ctx.oracle(format!("CAPACITY kind={} after `{optext}`: len {} > capacity {cap_after}", kind.name(), bytes.len()));
         }
-        let reshapes = matches!(op, Op::SplitOff(_) | Op::IntoCstr);
+        let reshapes = matches!(op, Op::SplitOff(_) | Op::Convert(_) | Op::ShrinkTo(_) | Op::ShrinkToFit);
+        if let Op::ShrinkTo(_) | Op::ShrinkToFit = op {
+            let floor = match op {
+                Op::ShrinkTo(n) => (*n).max(bytes.len()),
+                _ => bytes.len(),
+            };
+            if cap_after > cap_before || (cap_after != cap_before && cap_after != floor) || cap_after < floor.min(cap_before) {
+                ctx.oracle(format!("CAPACITY kind={} `{optext}` on {:?}: capacity {cap_before} -> {cap_after} (allowed: unchanged or {})", kind.name(), before, floor.min(cap_before)));
+            }
+            ctx.branch(if cap_after < cap_before { "shrink:shrunk" } else if floor >= cap_before { "shrink:nothing-to-do" } else { "shrink:arena-declined" });
+        }
         let asked = match op {
             Op::Reserve(n) | Op::ReserveExact(n) => before.len().saturating_add(*n),
             _ => bytes.len(),
@@ -520,10 +690,12 @@ fn step(ctx: &mut Ctx, s: &mut Option<Box<dyn StrOps + '_>>, r: &mut String, kin
     }
     // ---- oracle 1: valid UTF-8 after every operation, also a panicked one
     ctx.utf8_checks += 1;
-    let is_cstr = cstr.is_some();
+    let is_conv = fin.is_some();
+    let is_cstr = matches!(op, Op::Convert(Conv::IntoCstr));
     if !is_cstr {
         if let Err(e) = core::str::from_utf8(&bytes) {
             ctx.oracle(format!("INVALID-UTF8 kind={} after `{optext}` ({}) on {:?}: bytes {} ({e})", kind.name(), obs.text(), before, hex(&bytes)));
+            std::mem::forget(s.take());
             return false;
         }
     }
@@ -569,10 +741,39 @@ fn step(ctx: &mut Ctx, s: &mut Option<Box<dyn StrOps + '_>>, r: &mut String, kin
     if ok && seen_i != seen_r {
         ctx.oracle(format!("VALUE-MISMATCH kind={} `{optext}` on {:?}: predicate saw {} but with std {}", kind.name(), before, cps(&seen_i), cps(&seen_r)));
     }
-    if let (Some(b), true) = (&cstr, ok) {
+    if let (Some(f), true, true) = (&fin, ok, is_cstr) {
+        let b = &f.bytes;
         let nuls = b.iter().filter(|x| **x == 0).count();
         if *b != ref_cstr(before.as_bytes()) || nuls != 1 {
             ctx.oracle(format!("CSTR kind={} into_cstr on {:?}: {} (expected {})", kind.name(), before, hex(b), hex(&ref_cstr(before.as_bytes()))));
+        }
+    }
+    // ---- oracle 3: a further allocation from the same arena must not disturb the string (stale pointers), nor the
+    //      string's later writes the other allocations / split-off strings
+    if let Some(f) = &fin {
+        if let Some(re) = &f.reread {
+            if *re != f.bytes {
+                ctx.oracle(format!("STALE-POINTER kind={} `{optext}` on {:?}: result {} reads {} after a further allocation from the same arena", kind.name(), before, hex(&f.bytes), hex(re)));
+            }
+        }
+        if !f.probe_ok || !f.probes_intact {
+            ctx.oracle(format!("CLOBBERED kind={} `{optext}` on {:?}: another allocation of the arena was overwritten / the continued string is wrong", kind.name(), before));
+        }
+        ctx.branch("probe:after-conversion");
+    } else if let Some(st) = s.as_mut() {
+        let always = matches!(op, Op::ShrinkTo(_) | Op::ShrinkToFit | Op::SplitOff(_));
+        if (always || ctx.rng.chance(1, 8)) && st.probe(probe.0, probe.1) {
+            ctx.branch("probe:after-op");
+            let re = st.bytes();
+            if re != bytes {
+                ctx.oracle(format!("STALE-POINTER kind={} after `{optext}` on {:?}: contents {} read {} after a further allocation from the same arena", kind.name(), before, hex(&bytes), hex(&re)));
+                ok = false;
+            }
+        }
+        if let Err(e) = st.others_intact() {
+            ctx.oracle(format!("CLOBBERED kind={} after `{optext}` on {:?}: {e}", kind.name(), before));
+            std::mem::forget(s.take());
+            return false;
         }
     }
     // ---- branch counters (what the inputs exercised)
@@ -581,10 +782,19 @@ fn step(ctx: &mut Ctx, s: &mut Option<Box<dyn StrOps + '_>>, r: &mut String, kin
         // resynchronise the reference with the implementation to keep the rest of the sequence meaningful
         match String::from_utf8(bytes) {
             Ok(t) => *r = t,
-            Err(_) => return false,
+            Err(_) => {
+                std::mem::forget(s.take());
+                return false;
+            }
         }
     }
-    !is_cstr
+    if ctx.oracle_failures != failures_before {
+        // the implementation misbehaved: end the sequence and LEAK the string (its destructor, or any further
+        // operation, may crash the process on corrupted state)
+        std::mem::forget(s.take());
+        return false;
+    }
+    !is_conv
 }
 
 fn resolve(r: &Rg, len: usize) -> Option<(usize, usize)> {
@@ -659,7 +869,7 @@ fn count_branches(ctx: &mut Ctx, op: &Op, before: &str, obs: &Obs) {
                 ctx.branch("retain:all-kept")
             }
         }
-        Op::IntoCstr => ctx.branch(if before.as_bytes().contains(&0) { "into_cstr:has-nul" } else { "into_cstr:no-nul" }),
+        Op::Convert(Conv::IntoCstr) => ctx.branch(if before.as_bytes().contains(&0) { "into_cstr:has-nul" } else { "into_cstr:no-nul" }),
         Op::Pop => ctx.branch(if before.is_empty() { "pop:empty" } else { "pop:non-empty" }),
         _ => {}
     }
@@ -672,12 +882,14 @@ fn count_branches(ctx: &mut Ctx, op: &Op, before: &str, obs: &Obs) {
 
 /// the `new` line, printed once the real string exists (its capacity is part of the observation;
 /// for a MutBumpString it is also the grant handed to the model)
-fn new_line(ctx: &mut Ctx, kind: Kind, ctor: Option<usize>, text: &str, s: &dyn StrOps) {
+fn new_line(ctx: &mut Ctx, kind: Kind, ctor: Ctor, text: &str, s: &dyn StrOps) {
     ctx.news += 1;
     let ctor_tok = match (kind, ctor) {
-        (Kind::Box, _) | (Kind::Bump, None) | (Kind::Mut, None) => "s".to_string(),
-        (Kind::Bump, Some(c)) => format!("c{c}"),
-        (Kind::Fixed, c) | (Kind::Mut, c) => format!("c{}", c.unwrap_or(0).max(text.len())),
+        (Kind::Box, _) => "s".to_string(),
+        (Kind::Bump | Kind::Mut, Ctor::FromStr { try_ }) => if try_ { "ts".to_string() } else { "s".to_string() },
+        (Kind::Bump, Ctor::WithCap { cap, try_ }) => format!("{}c{cap}", if try_ { "t" } else { "" }),
+        (Kind::Fixed, Ctor::FromStr { try_ }) => format!("{}c{}", if try_ { "t" } else { "" }, text.len()),
+        (Kind::Fixed | Kind::Mut, Ctor::WithCap { cap, try_ }) => format!("{}c{}", if try_ { "t" } else { "" }, cap.max(text.len())),
     };
     let grant = if kind == Kind::Mut { format!(" g{}", s.cap()) } else { String::new() };
     let cap = if kind == Kind::Box { "-".to_string() } else { s.cap().to_string() };
@@ -686,18 +898,10 @@ fn new_line(ctx: &mut Ctx, kind: Kind, ctor: Option<usize>, text: &str, s: &dyn 
     if b != text.as_bytes() {
         ctx.oracle(format!("CONTENT-MISMATCH kind={} constructor {ctor_tok} on {:?}: contents {}", kind.name(), text, hex(&b)));
     }
-    if let (Some(c), false) = (ctor, kind == Kind::Box) {
+    if let (Ctor::WithCap { cap: c, .. }, false) = (ctor, kind == Kind::Box) {
         if s.cap() < c || s.cap() < b.len() {
             ctx.oracle(format!("CAPACITY kind={} with_capacity({c}) + push_str({:?}): capacity {}", kind.name(), text, s.cap()));
         }
-    }
-}
-
-fn with_dir(up: bool, kind: Kind, text: &str, cap: Option<usize>, f: &mut dyn FnMut(Box<dyn StrOps + '_>)) {
-    if up {
-        with_string::<true>(kind, text, cap, f)
-    } else {
-        with_string::<false>(kind, text, cap, f)
     }
 }
 
@@ -708,17 +912,19 @@ fn pick_kind(ctx: &mut Ctx) -> Kind {
 /// a random operation sequence on one string
 fn sequence(ctx: &mut Ctx, n: u64, nops: u64) {
     let kind = pick_kind(ctx);
-    let up = ctx.rng.chance(1, 2);
+    let cfg = ctx.rng.below(CONFIGS.len() as u64) as usize;
     let text = gen_text(&mut ctx.rng, 8);
+    let try_ = ctx.rng.chance(1, 3);
     let cap = match kind {
-        Kind::Fixed => Some(text.len() + ctx.rng.below(24) as usize),
-        Kind::Bump | Kind::Mut if ctx.rng.chance(1, 2) => Some(ctx.rng.below(30) as usize),
-        _ => None,
+        Kind::Fixed => Ctor::WithCap { cap: text.len() + ctx.rng.below(24) as usize, try_ },
+        Kind::Bump | Kind::Mut if ctx.rng.chance(1, 2) => Ctor::WithCap { cap: ctx.rng.below(30) as usize, try_ },
+        _ => Ctor::FromStr { try_ },
     };
     let tseed = ctx.rng.0;
-    let _ = writeln!(ctx.out, "# trace {n} sequence kind={} up={} seed {tseed}", kind.name(), up as u8);
+    let _ = writeln!(ctx.out, "# trace {n} sequence kind={} arena={} seed {tseed}", kind.name(), CONFIGS[cfg]);
+    ctx.cfgs[cfg] += 1;
     let mut r = text.clone();
-    with_dir(up, kind, &text, cap, &mut |s| {
+    with_config(cfg, kind, &text, cap, &mut |s| {
         new_line(ctx, kind, cap, &text, &*s);
         let mut s = Some(s);
         for i in 0..nops {
@@ -739,10 +945,11 @@ fn sweep(ctx: &mut Ctx, n: u64) {
             break t;
         }
     };
-    let up = ctx.rng.chance(1, 2);
+    let cfg = ctx.rng.below(CONFIGS.len() as u64) as usize;
     let len = text.len();
     let tseed = ctx.rng.0;
-    let _ = writeln!(ctx.out, "# trace {n} sweep text={} up={} seed {tseed}", hex(text.as_bytes()), up as u8);
+    let _ = writeln!(ctx.out, "# trace {n} sweep text={} arena={} seed {tseed}", hex(text.as_bytes()), CONFIGS[cfg]);
+    ctx.cfgs[cfg] += 1;
     let ins = gen_char(&mut ctx.rng);
     let repl = gen_text(&mut ctx.rng, 3);
     let mut ops: Vec<Op> = Vec::new();
@@ -751,6 +958,8 @@ fn sweep(ctx: &mut Ctx, n: u64) {
         ops.push(Op::InsertStr(i, repl.clone()));
         ops.push(Op::Remove(i));
         ops.push(Op::Truncate(i));
+        ops.push(Op::ShrinkTo(i));
+        ops.push(Op::ShrinkTo(len + 2 + i));
         for j in i.saturating_sub(1)..=len + 1 {
             let rg = (Bound::Included(i), Bound::Excluded(j));
             ops.push(Op::SplitOff(rg));
@@ -759,23 +968,33 @@ fn sweep(ctx: &mut Ctx, n: u64) {
             ops.push(Op::ExtendFromWithin(rg));
         }
     }
+    ops.push(Op::ShrinkToFit);
     for kind in [Kind::Box, Kind::Fixed, Kind::Bump, Kind::Mut] {
         for op in &ops {
             let supported = match (op, kind) {
                 (Op::SplitOff(..), Kind::Mut) => false,
-                (Op::Insert(..) | Op::InsertStr(..) | Op::ReplaceRange(..) | Op::ExtendFromWithin(..), Kind::Box) => false,
+                (Op::ShrinkTo(..) | Op::ShrinkToFit, k) => k == Kind::Bump,
+                (o, Kind::Box) => !o.grows(),
                 _ => true,
             };
             if !supported {
                 continue;
             }
-            // a fixed string with room for some, not all, of the growing operations
-            let cap = if kind == Kind::Fixed { Some(len + ctx.rng.below(6) as usize) } else { None };
+            // a fixed string with room for some, not all, of the growing operations; a BumpString with spare
+            // capacity (so that shrinking has something to do) or without
+            let cap = match kind {
+                Kind::Fixed => Ctor::WithCap { cap: len + ctx.rng.below(6) as usize, try_: false },
+                Kind::Bump if ctx.rng.chance(2, 3) => Ctor::WithCap { cap: len + ctx.rng.below(12) as usize, try_: false },
+                _ => Ctor::FromStr { try_: false },
+            };
             let mut r = text.clone();
-            with_dir(up, kind, &text, cap, &mut |s| {
+            with_config(cfg, kind, &text, cap, &mut |s| {
                 new_line(ctx, kind, cap, &text, &*s);
                 let mut s = Some(s);
-                step(ctx, &mut s, &mut r, kind, op);
+                if step(ctx, &mut s, &mut r, kind, op) && matches!(op, Op::ShrinkTo(_) | Op::ShrinkToFit) {
+                    // the string must still be usable after the shrink and the further allocation
+                    step(ctx, &mut s, &mut r, kind, &Op::Push('\u{e9}'));
+                }
             });
         }
         ctx.flush();
@@ -866,6 +1085,7 @@ fn main() {
         ops: BTreeMap::new(),
         branches: BTreeMap::new(),
         kinds: [0; 4],
+        cfgs: [0; 4],
         oracle_failures: 0,
         cases: 0,
         news: 0,
@@ -879,8 +1099,8 @@ fn main() {
         n += 1;
         let text = "a\u{e9} b";
         let mut r = text.to_string();
-        with_dir(true, kind, text, Some(8), &mut |s| {
-            new_line(&mut ctx, kind, Some(8), text, &*s);
+        with_config(1, kind, text, Ctor::WithCap { cap: 8, try_: false }, &mut |s| {
+            new_line(&mut ctx, kind, Ctor::WithCap { cap: 8, try_: false }, text, &*s);
             let mut s = Some(s);
             for rg in [(2, 2), (1, 1), (3, 3), (2, 3), (1, 3)] {
                 let op = Op::SplitOff((Bound::Included(rg.0), Bound::Excluded(rg.1)));
@@ -908,8 +1128,8 @@ fn main() {
     let dstats = decode_section(&mut ctx, decodes);
     ctx.flush();
     println!(
-        "# summary traces={n} cases={} new={} utf8_checks={} oracle_failures={} kinds(box,fixed,bump,mut)={:?}",
-        ctx.cases, ctx.news, ctx.utf8_checks, ctx.oracle_failures, ctx.kinds
+        "# summary traces={n} cases={} new={} utf8_checks={} oracle_failures={} kinds(box,fixed,bump,mut)={:?} arenas(up1,down1,down8,up16)={:?}",
+        ctx.cases, ctx.news, ctx.utf8_checks, ctx.oracle_failures, ctx.kinds, ctx.cfgs
     );
     let ops: Vec<String> = ctx.ops.iter().map(|(k, v)| format!("{k}={}/{}/{}", v[0], v[1], v[2])).collect();
     println!("# ops (ok/err/panic) {}", ops.join(" "));
